@@ -28,3 +28,62 @@ PROPS["C08"] = dict(
                 "expired never reverts) for an arbitrary clock reading.",
 )
 NOT_YET = {}
+
+SCHED_ASSUME = [
+    "dog protocol (contracts/sched.py): a doer's generator either suspends, returns (StopIteration(v)) or raises an Exception; it never leaks StopIteration (PEP 479); close() on a suspended dog returns None (CPython 3.12) and does not raise (cease/exit hooks raising during a forced close are outside the fault list of the statements)",
+    "re-entrant extend/remove calls target the scheduler that owns the running doer",
+    "hooks of Doer subclasses are arbitrary user code: may raise any Exception, may assign self.done",
+]
+SCHED_BOUNDED_NOTE = ("Contracts whose name carries [bounded ...] interpret the real enter/recur/exit/extend/remove on deques of at most 3 deeds "
+                      "(all tymes, retymes, tocks and every dog outcome symbolic): bounded in the number of doers, complete otherwise; they are "
+                      "reported under bounded_symbolic and never counted as proved. ")
+
+PROPS["C01"] = dict(
+    contracts=["contracts.c01_lifecycle", "contracts.sched_bounded", "contracts.sched_bounded2", "contracts.c05_do"],
+    harness="harness.sched_props:C01", level="other",
+    trusted_base=["dog protocol model in contracts/sched.py"], assumptions=SCHED_ASSUME,
+    explanation="Producer side PROVED for all paths and any number of recurs: the real try/except GeneratorExit/except Exception/else/finally "
+                "text of Doer.do and DoDoer.do is interpreted with every hook virtual (may raise) and every yield forked into resume/close; "
+                "a ghost automaton obligation sits at every hook call (enter, recur*, exactly one of clean/cease/abort, exit once, nothing after). "
+                "Doist.do/ado PROVED to call exit exactly once on every path (loop cut by invariant). Consumer side (every started dog is in "
+                "deeds exactly once, closed exactly once, never sent to after finishing): " + SCHED_BOUNDED_NOTE +
+                "A native CPython harness over random scripted forests (incl. nested DoDoers and runtime extend/remove) is the second bounded stand-in.",
+)
+PROPS["C02"] = dict(
+    contracts=["contracts.c01_lifecycle", "contracts.sched_bounded", "contracts.sched_bounded2", "contracts.c05_do"],
+    harness="harness.sched_props:C02", level="other",
+    trusted_base=["dog protocol model in contracts/sched.py"], assumptions=SCHED_ASSUME,
+    explanation="exit() closes in reverse deque order and deeds are kept in enter order by enter/recur/extend/remove: " + SCHED_BOUNDED_NOTE +
+                "Children-before-parent follows from DoDoer.do (PROVED: cease/abort, then exit which closes the children, all before the generator "
+                "terminates) and Doist.do (PROVED: exit() in finally before do returns or raises).",
+)
+PROPS["C03"] = dict(
+    contracts=["contracts.sched_bounded"], harness="harness.sched_props:C03", level="other",
+    trusted_base=["dog protocol model in contracts/sched.py"], assumptions=SCHED_ASSUME,
+    explanation="Per-cycle contract of Doist.recur / DoDoer.recur / enter on the real code: tyme advances by exactly one tock, due deeds are sent "
+                "exactly once with the current tyme in deque order, retyme' = retyme + t for t > 0 (cumulative) and tyme + tock for 0/None, first "
+                "due tyme is the tyme at enter; all reals symbolic. " + SCHED_BOUNDED_NOTE + "The lift to whole runs (k-th cycle at tyme0 + k*tock, "
+                "due = enter + sum of tocks) is a paper induction over the per-cycle contract; the native harness checks it on random forests.",
+)
+PROPS["C05"] = dict(
+    contracts=["contracts.c05_do", "contracts.sched_bounded", "contracts.c01_lifecycle", "contracts.c08_timers"],
+    harness="harness.sched_props:C05", level="other",
+    trusted_base=["dog protocol model in contracts/sched.py"], assumptions=SCHED_ASSUME,
+    explanation="Doist.do PROVED (outer loop cut by invariant, any number of cycles): leaves at the first cycle that empties deeds with done True, "
+                "or at the first cycle whose end tyme >= start + limit with done True iff deeds are empty; KeyboardInterrupt leaves done False; "
+                "Tymer.expired PROVED. Doer.do/DoDoer.do PROVED to return self.done. done-flag assignment in enter/recur/exit: " + SCHED_BOUNDED_NOTE,
+)
+PROPS["C06"] = dict(
+    contracts=["contracts.sched_bounded2"], harness="harness.sched_props:C06", level="other",
+    trusted_base=["dog protocol model in contracts/sched.py"], assumptions=SCHED_ASSUME,
+    explanation="extend/remove and one cycle of recur with a re-entrant extend or remove issued from inside a running doer (the real extend/remove "
+                "are interpreted re-entrantly). " + SCHED_BOUNDED_NOTE + "Native harness: random hosts whose doers call extend/remove at run time.",
+)
+PROPS["C30"] = dict(
+    contracts=["contracts.c05_do"], harness="harness.sched_props:C30", level="proof",
+    trusted_base=["EXT asyncio.sleep(0.0): no other task touches the Doist while it is suspended", "virtual enter/recur/exit with the effects their own contracts establish"],
+    assumptions=["non-real-time mode only", "composition: both functions satisfy the identical clauses, which determine the hook-call sequence and final state from the hook outcomes"],
+    explanation="Doist.do and Doist.ado are interpreted from the real source and PROVED against one and the same contract harness (same clauses, "
+                "same virtual enter/recur/exit oracle, outer loop cut by the same invariant). The contract fixes the sequence of enter/recur/exit calls "
+                "and the final done/tyme as a function of the hook outcomes, so equal doers give equal runs. Native harness runs both on random forests.",
+)
